@@ -798,6 +798,60 @@ func checkC09Siblings(c *Check, L *Loaded) {
 		return true
 	})
 	sort.Strings(parses)
+	// the trie search must not be stricter about Referenz arguments than the typed check: any rejection it makes on
+	// 'is a Referenz parameter' has to admit the same forms
+	{
+		var fl *ast.FuncLit
+		ast.Inspect(aliasFn.Decl.Body, func(n ast.Node) bool {
+			if call, ok := n.(*ast.CallExpr); ok && fl == nil {
+				if fn := Callee(info, call); fn != nil && fn.Name() == "Search" && len(call.Args) == 1 {
+					fl, _ = call.Args[0].(*ast.FuncLit)
+				}
+			}
+			return true
+		})
+		if fl != nil {
+			var searchAdm []string
+			found := false
+			var pos token.Pos
+			ast.Inspect(fl.Body, func(n ast.Node) bool {
+				is, ok := n.(*ast.IfStmt)
+				if !ok || !strings.Contains(types.ExprString(is.Cond), "IsReference") {
+					return true
+				}
+				rejects := false
+				for _, st := range is.Body.List {
+					if ret, ok := st.(*ast.ReturnStmt); ok && len(ret.Results) == 2 {
+						if tv, ok := info.Types[ret.Results[1]]; ok && tv.Value != nil && tv.Value.String() == "false" {
+							rejects = true
+						}
+					}
+				}
+				if !rejects {
+					return true
+				}
+				found = true
+				pos = is.Pos()
+				ast.Inspect(is.Cond, func(m ast.Node) bool {
+					if be, ok := m.(*ast.BinaryExpr); ok && be.Op == token.NEQ {
+						if s, ok := ast.Unparen(be.Y).(*ast.SelectorExpr); ok {
+							if tv, ok := info.Types[be.Y]; ok && tv.Value != nil {
+								searchAdm = append(searchAdm, s.Sel.Name)
+							}
+						}
+					}
+					return true
+				})
+				return true
+			})
+			sort.Strings(searchAdm)
+			if found {
+				r.Decide(fmt.Sprint(searchAdm) == fmt.Sprint(parses), "parser.(*parser).alias|forms the trie search admits for a Referenz argument", pos, "admits "+fmt.Sprint(searchAdm), "the trie search skips a declaration with a Referenz parameter unless the argument starts with "+fmt.Sprint(searchAdm)+", while assigneable() parses "+fmt.Sprint(parses)+": such a declaration is never collected for the other forms and a by-value declaration with the same pattern is called instead")
+			} else {
+				r.OK("parser.(*parser).alias|forms the trie search admits for a Referenz argument", fl.Pos(), "the search does not filter on Referenz parameters; the typed check decides")
+			}
+		}
+	}
 	if len(admitted) == 0 {
 		r.Und("parser.(*parser).checkAlias|forms admitted for a Referenz argument", token.NoPos, "the early rejection of non-assignable arguments was not found")
 	} else {
